@@ -131,7 +131,7 @@ type World struct {
 	P    *core.Program
 	Info map[*interp.Cell]*TInfo
 	// Notes collected by summaries (e.g. precondition failures with their reason).
-	ErrNotes []string
+	ErrNotes    []string
 	curOperands []interp.PtrV
 	// SpecTracked counts spec-mode results that would be tracked (no back edges are modelled for them)
 	SpecTracked int
